@@ -206,6 +206,39 @@ def oracle(ck, tier, deep):
                 ck.violation(dict(site="Transform", clause="rbasex-pass-through"), rep, "abel.Transform(method='rbasex') differs from rbasex_transform")
 
 
+def oracle_histories(ck, tier, deep):
+    """the image equals the synthesis from the returned distributions also when the previous call on the same frame (same shape,
+    origin and output geometry) used a smaller rmax, a lower order or the other parity — with no cache_cleanup() in between"""
+    import abel
+    rng = np.random.default_rng(seed() + 161616)
+    for it in range(10 if not deep else 80):
+        h, w = (int(v) for v in rng.integers(21, 36, size=2))
+        origin = (int(rng.integers(8, h - 8)), int(rng.integers(8, w - 8)))
+        im = rng.random((h, w))
+        out = ["same", "full"][int(rng.integers(0, 2))]
+        direction = ["inverse", "forward"][int(rng.integers(0, 2))]
+        steps = [(int(rng.integers(5, 8)), 2, False), (int(rng.integers(8, 8 + min(origin[0], origin[1], h - 1 - origin[0], w - 1 - origin[1]) - 7)), 2, False),
+                 (7, 4, False), (7, 3, True), (6, 2, False)]
+        abel.rbasex.cache_cleanup()
+        for si, (rmax, order, odd) in enumerate(steps):
+            ck.count(("S.history", out, direction, si), suite="S.outputs")
+            rep = dict(shape=[h, w], origin=list(origin), out=out, direction=direction, session=[list(s) for s in steps[:si + 1]])
+            try:
+                img, d = quiet(abel.rbasex.rbasex_transform, im, origin=origin, rmax=rmax, order=order, odd=odd, direction=direction, out=out)
+            except Exception as e:
+                ck.violation(dict(site="rbasex_transform", clause="exception"), rep, f"{type(e).__name__}: {e}")
+                break
+            cn = d.cos()
+            o = origin if out == "same" else (rmax, rmax)
+            ref = numpy_synthesis(cn, rmax, odd, img.shape, o)
+            if img.shape != ref.shape or np.abs(img - ref).max() > 1e-9 * max(1.0, np.abs(ref).max()):
+                ck.violation(dict(site="rbasex_transform", clause="image=synthesis-after-other-calls"), rep,
+                             f"call {si} (rmax={rmax}, order={order}, odd={odd}) of a session on one frame: the image differs from the synthesis of its "
+                             f"own distributions by {np.abs(img - ref).max() if img.shape == ref.shape else 'shape'}")
+                break
+    abel.rbasex.cache_cleanup()
+
+
 def run(tier):
     ck = Check("C16", tier)
     deep = tier == "thorough"
@@ -228,6 +261,7 @@ def run(tier):
     else:
         ck.broken.append(dict(kind="proof", module="pyabel_drv", why="driver build failed", log=log[-1500:]))
     oracle(ck, tier, deep or bool(ck.broken))
+    oracle_histories(ck, tier, deep)
     return ck.finish()
 
 
